@@ -166,5 +166,15 @@ pub fn check(cx: &Cx, rep: &mut Report) {
             }
         }
     }
+    // R1 (identity): a restarted actor is still the same subscriber for the broker (the only place where the library
+    // compares identities): what it subscribes to in started(), once per incarnation, arrives exactly once
+    if !cx.prog.topics.is_empty() && fx.values().any(|a| a.incs.len() > 1) {
+        let mut sub = Report::default();
+        super::c09::check(cx, &mut sub);
+        rep.premise("C07.R1.same_subscriber_after_restart");
+        for v in sub.violations.into_iter().filter(|v| matches!(v.rule, "R1" | "R3") && v.sig.contains("twice")) {
+            rep.fail(P, "R1", format!("c09:{}:{}", v.rule, v.sig), v.msg, v.at);
+        }
+    }
     rep.nontrivial = nontrivial;
 }
